@@ -31,6 +31,7 @@ def main(argv):
     from .cli import load_prop
     mod = load_prop(pid)
     rec = core.set_current(core.Rec(pid, tier, seed, shard, nshards))
+    rec.partial_path = out + ".partial"
     from .monitors import observe
     from .monitors.install import import_all
     import_all()
